@@ -10,7 +10,17 @@ import vlib
 TOL = {64: (4e-15, 1e-13, 4e-13), 32: (2e-7, 8e-6, 8e-5)}      # roots, L, dL: 8-12 x the largest deviation measured on the pinned tree
 
 
+def coq_caps():
+    """the caps of Num/UnifCauchy.v (Definition unif_cap), read from the Coq source so that the run-time check uses the theorem's numbers"""
+    import re
+    txt = open(os.path.join(vlib.COQ, "Num", "UnifCauchy.v")).read()
+    body = txt[txt.index("Definition unif_cap"):]
+    body = body[:body.index("end.")]
+    return {int(a): Fraction(int(b), int(c)) for a, b, c in re.findall(r"(\d+)%nat\s*=>\s*(\d+)#(\d+)", body)}
+
+
 def unif_part(rep, sdir, rng):
+    caps = coq_caps()
     binary, err = vlib.build_harness("h_unif")
     if not binary:
         rep.violation(dict(kind="build", clause="h_unif", has_input=True), "harness h_unif does not compile: " + err[-400:], dict(stderr=err))
@@ -45,6 +55,19 @@ def unif_part(rep, sdir, rng):
         # partition of unity and zero derivative sum, on the implementation's own values
         if abs(sum(ip[1]) - 1) > 50 * TOL[real][1]: return "sum of the Lagrange polynomials = %.17g" % sum(ip[1])
         if abs(sum(ip[2])) > 50 * TOL[real][2] * max(1, max(abs(x) for x in ip[2])): return "sum of the derivatives = %.3g" % sum(ip[2])
+        # C05_cauchy_identity / C05_cauchy_truncation_bound on the implementation's own roots and polynomial values: a source at x in the
+        # cell [-1,1] seen from a well-separated target d >= 3 through the interpolation weights
+        x = Fraction(int(c.split()[3]), int(c.split()[4]))
+        if abs(x) <= 1 and order in caps:
+            for dd in (Fraction(3), Fraction(7, 2), Fraction(5), Fraction(40)):
+                got = sum(Fraction(l) / (dd - Fraction(r)) for r, l in zip(ip[0], ip[1]))
+                W = lambda t: __import__("math").prod((t - r) for r in ex[0])
+                predicted = (1 - W(x) / W(dd)) / (dd - x)
+                slack = Fraction(50 * TOL[real][1]) * order / (dd - 1)
+                if abs(got - predicted) > slack:
+                    return "interpolated Cauchy kernel at x=%s, d=%s is %.17g, the identity of C05_cauchy_identity gives %.17g" % (x, dd, float(got), float(predicted))
+                if abs(got - 1 / (dd - x)) > caps[order] / (dd - x) + slack:
+                    return "interpolated Cauchy kernel at x=%s, d=%s is off by %.3g, more than the proved cap %s of its value" % (x, dd, float(abs(got - 1 / (dd - x))), caps[order])
         return None
     vlib.differential(rep, binary, cases, sdir, "unif", canon=canon, oracle=oracle, model_cases=cases, nontrivial=lambda c, i: True,
                       clause=lambda c: "unif:order%s:%s" % (c.split()[2], c.split()[1]))
